@@ -68,6 +68,17 @@ impl InstGraph {
         }
         let mut pool: Vec<u8> = (0..=255u8).collect();
         pool.shuffle(rng);
+        // a quarter of the time: labels that differ in one high bit only (v, v^128, v^64, v^192, ...): bit-mask and
+        // modular tricks on labels alias exactly these
+        if rng.gen_bool(0.25) {
+            let b = pool[0];
+            let mut adv: Vec<u8> = [0u8, 128, 64, 192, 32, 160, 96, 224, 1, 129, 255, 127].iter().map(|m| b ^ m).collect();
+            adv.dedup();
+            let rest: Vec<u8> = pool.iter().copied().filter(|x| !adv.contains(x)).collect();
+            pool = adv.into_iter().chain(rest).collect();
+            let k = maxl.min(pool.len() - 1).max(1);
+            pool[..=k].shuffle(rng);
+        }
         // make the extreme labels likely
         if rng.gen_bool(0.5) {
             pool.retain(|&x| x != 0 && x != 255);
